@@ -133,12 +133,15 @@ func c04Pair(d1, d2 Directive, v1, v2 int) string {
 	f1, s1 := d1.Format()
 	f2, s2 := d2.Format()
 	args := append(append(append(s1, u[v1].Mk(0)), s2...), u[v2].Mk(0))
-	return c04Compare("a"+f1+"|"+f2+"z", args)
+	if d := c04Compare("a"+f1+"|"+f2+"z", args); d != "" {
+		return d
+	}
+	return c04Compare(f1+f2+"\n", args) // adjacent directives, then a line feed in the literal
 }
 
 func c04PairVals() []Val {
 	var r []Val
-	want := map[string]bool{"int": true, "stringLF": true, "float64": true, "[]byte": true, "[]interface{}": true, "struct": true, "Stringer": true, "error": true, "safeT": true, "panic String(str)": true, "nil": true, "map[string]int": true, "recFormatter": true, "bool": true}
+	want := map[string]bool{"int": true, "stringLF": true, "float64": true, "[]byte": true, "[]interface{}": true, "struct": true, "Stringer": true, "error": true, "safeT": true, "panic String(str)": true, "nil": true, "map[string]int": true, "recFormatter": true, "bool": true, "stringEmpty": true}
 	for _, v := range fmtUniverse() {
 		if want[v.Name] {
 			r = append(r, v)
